@@ -471,6 +471,19 @@ func c05SelfLimiting(p *Prog, r *Report, fc *FuncCtx, payloadStart, payloadLen, 
 				r.Fail(r3, fc.Name+":padding-def", p.posStr(n.Pos()), "padding initialised to something other than zero")
 			}
 		case *ast.AssignStmt:
+			if n.Tok == token.DEFINE && len(n.Rhs) == len(n.Lhs) {
+				zero := false
+				for i, l := range n.Lhs {
+					if objOf(info, l) == pad {
+						if k, isC := constInt(info, n.Rhs[i]); isC && k == 0 {
+							zero = true
+						}
+					}
+				}
+				if zero {
+					continue // declared with an explicit zero
+				}
+			}
 			if !usesCall(info, n, "IntN") {
 				r.Fail(r3, fc.Name+":padding-def", p.posStr(n.Pos()), "padding assigned from something other than the budgeted random draw")
 			}
